@@ -6,7 +6,7 @@ import (
 	"go/types"
 	"strings"
 
-	"golang.org/x/tools/go/ssa"
+	"ikeverif/checker/xt/ssa"
 )
 
 // decodeRoots resolves the decode entry points of C04 (anchors). Missing anchors are reported.
